@@ -33,6 +33,10 @@ static char *pct_decode(const char *s, int *is_null)
     char *out = malloc(len + 1);
     if (is_null)
         *is_null = !strcmp(s, "%00");
+    if (!strcmp(s, "%_")) { /* the empty string */
+        out[0] = '\0';
+        return out;
+    }
     for (ii = jj = 0; ii < len; ++ii) {
         if (s[ii] == '%' && isxdigit((unsigned char)s[ii + 1]) && isxdigit((unsigned char)s[ii + 2])) {
             char hex[3] = { s[ii + 1], s[ii + 2], 0 };
